@@ -132,6 +132,18 @@ Check C19_search_space_exponential : forall (cands : list itrade),
   (length (all_combos cands) = 2 ^ length cands - 1)%nat.
 Print Assumptions C19_search_space_exponential.
 
+(* "Adding up" is meant literally under rust_decimal arithmetic: trade
+   confirmations state whole share counts, and while the total stays below 2^96
+   the sum computed with [dec] is the exact sum (the same as with [exact]). *)
+Theorem C19_dec_sum_exact_on_whole_shares : forall ts zs,
+  Forall2 whole_shares ts zs -> zsum zs <= max_mant ->
+  sum_shares dec ts = Ok (Qcfrac (zsum zs) 1) /\ sum_shares exact ts = sum_shares dec ts.
+Proof. exact EtradeProps.dec_sum_whole_shares_exact. Qed.
+Check C19_dec_sum_exact_on_whole_shares : forall ts zs,
+  Forall2 whole_shares ts zs -> zsum zs <= max_mant ->
+  sum_shares dec ts = Ok (Qcfrac (zsum zs) 1) /\ sum_shares exact ts = sum_shares dec ts.
+Print Assumptions C19_dec_sum_exact_on_whole_shares.
+
 (* ---------------------------------------------------------------------
    Non-vacuity.  An RSU release (100 shares, 10 sold at 106.36) and an ESPP
    purchase without sale, with four trade confirmations: 6 + 4 shares sold the
